@@ -344,6 +344,8 @@ def c_add_record(self: Converter, record: Record, case_sensitive: bool, merge: b
                   for i, a in enumerate(self.records) for j, b in enumerate(self.records) if i != j)
     m = next((r for r in self.records if matches2(record, r, case_sensitive)), None)
     recs0 = list(self.records)
+    oldP = [P(r) for r in self.records]
+    oldU = [U(r) for r in self.records]
     m_prefix = m.prefix if m is not None else None
     m_uri = m.uri_prefix if m is not None else None
     m_pattern = m.pattern if m is not None else None
@@ -371,6 +373,16 @@ def c_add_record(self: Converter, record: Record, case_sensitive: bool, merge: b
                 for i in range(old(len(self.records)))))
     ensures(all(known(self, p) for p in P(record)) and all(uknown(self, u) for u in U(record)))
     ensures(record.prefix == old(record.prefix) and record.uri_prefix == old(record.uri_prefix))
+    # consequences used by callers (chain): names only grow, nothing is invented, grouping, existing answers are kept
+    ensures(all(known(self, p) for k in range(len(recs0)) for p in oldP[k]))
+    ensures(all(uknown(self, u) for k in range(len(recs0)) for u in oldU[k]))
+    ensures(all(any(p in oldP[k] for k in range(len(recs0))) or p in P(record) for q in self.records for p in P(q)))
+    ensures(all(any(u in oldU[k] for k in range(len(recs0))) or u in U(record) for q in self.records for u in U(q)))
+    ensures(all(oldP[k] <= P(self.records[k]) and oldU[k] <= U(self.records[k]) for k in range(len(recs0))))
+    ensures(any(P(record) <= P(q) and U(record) <= U(q) for q in self.records))
+    ensures(all(p in self.prefix_map and self.prefix_map[p] == old(self.prefix_map)[p]
+                and p in self.synonym_to_prefix and self.synonym_to_prefix[p] == old(self.synonym_to_prefix)[p] for p in old(self.prefix_map)))
+    ensures(implies(not case_sensitive and old(no_casefold_clash(self)), no_casefold_clash(self)))
     ensures(fresh_equiv(self), native=True)
     ensures(rec_state(record) == old(rec_state(record)), native=True)
 
@@ -468,27 +480,76 @@ def bridging(converters, cs):
     return False
 
 
+def names_from(cs, p):
+    """p is a CURIE prefix or synonym of some record of some converter in cs."""
+    return any(p in P(r) for c in cs for r in c.records)
+
+
+def unames_from(cs, u):
+    return any(u in U(r) for c in cs for r in c.records)
+
+
 @contract("api.chain", props=["C09", "C10"], returns="Converter")
 def c_chain(converters: list[Converter], case_sensitive: bool):
     requires(all(WF(c) for c in converters))
     requires(all(c1 is not c2 and all(r1 is not r2 for r1 in c1.records for r2 in c2.records)
                  for i, c1 in enumerate(converters) for j, c2 in enumerate(converters) if i < j))
-    raises(ValueError, when=len(converters) == 0 or bridging(converters, case_sensitive))
-    ensures(WF(result) and fresh_equiv(result))
+    raises(ValueError, when=len(converters) == 0)
+    raises(ValueError, when=len(converters) == 0 or bridging(converters, case_sensitive), native=True)
+    ensures(WF(result))
+    ensures(fresh_equiv(result), native=True)
     # nothing lost, nothing invented
     ensures(all(known(result, p) for c in converters for r in c.records for p in P(r)))
     ensures(all(uknown(result, u) for c in converters for r in c.records for u in U(r)))
-    ensures(all(any(p in P(r) for c in converters for r in c.records) for q in result.records for p in P(q)))
-    ensures(all(any(u in U(r) for c in converters for r in c.records) for q in result.records for u in U(q)))
+    ensures(all(names_from(converters, p) for q in result.records for p in P(q)))
+    ensures(all(unames_from(converters, u) for q in result.records for u in U(q)))
     # whatever shared a record in an input shares a record in the result
     ensures(all(any(P(r) <= P(q) and U(r) <= U(q) for q in result.records) for c in converters for r in c.records))
-    # priority: case-sensitive mode expands every prefix known to the first converter exactly as it does
-    ensures(implies(case_sensitive, all(result.prefix_map[p] == converters[0].prefix_map[p] and result.synonym_to_prefix[p] == converters[0].synonym_to_prefix[p]
+    # priority: case-sensitive mode answers every prefix known to the first converter exactly as it does
+    ensures(implies(case_sensitive, all(result.prefix_map[p] == converters[0].prefix_map[p]
+                                        and result.synonym_to_prefix[p] == converters[0].synonym_to_prefix[p]
                                         for r in converters[0].records for p in P(r))))
     ensures(implies(not case_sensitive, no_casefold_clash(result)))
-    # C10: inputs unchanged and the result shares no record object with them
-    ensures(all(conv_state(c) == s for c, s in zip(converters, old([conv_state(c) for c in converters]))))
-    ensures(all(q is not r for q in result.records for c in converters for r in c.records))
+    # C10: inputs unchanged (frame: no modifies clause) and the result shares no object with them
+    ensures(_fresh(result) and all(_fresh(q) for q in result.records), symbolic=True)
+    ensures(all(conv_state(c) == s for c, s in zip(converters, old([conv_state(c) for c in converters]))), native=True)
+    ensures(all(q is not r for q in result.records for c in converters for r in c.records), native=True)
+
+
+def chain_inv_common(rv, done, cur_done, case_sensitive):
+    """Invariant of both loops of chain(): `done` = converters fully processed, `cur_done` = processed records of
+    the current one. Everything about the inputs is read in the ENTRY heap (_pre): they never change (_frame)."""
+    return (WF(rv) and _frame() and _fresh(rv) and _alloc(rv) and all(_fresh(q) and _alloc(q) for q in rv.records)
+            and all(known(rv, p) for c in done for r in _pre(c.records) for p in _pre(P(r)))
+            and all(uknown(rv, u) for c in done for r in _pre(c.records) for u in _pre(U(r)))
+            and all(known(rv, p) for r in cur_done for p in _pre(P(r)))
+            and all(uknown(rv, u) for r in cur_done for u in _pre(U(r)))
+            and all(any(p in _pre(P(r)) for c in done for r in _pre(c.records)) or any(p in _pre(P(r)) for r in cur_done) for q in rv.records for p in P(q))
+            and all(any(u in _pre(U(r)) for c in done for r in _pre(c.records)) or any(u in _pre(U(r)) for r in cur_done) for q in rv.records for u in U(q))
+            and all(any(_pre(P(r)) <= P(q) and _pre(U(r)) <= U(q) for q in rv.records) for c in done for r in _pre(c.records))
+            and all(any(_pre(P(r)) <= P(q) and _pre(U(r)) <= U(q) for q in rv.records) for r in cur_done)
+            and (case_sensitive or no_casefold_clash(rv)))
+
+
+@invariant("api.chain", loop=0)
+def inv_chain0(converters, case_sensitive, rv, _i, _xs, _pre):
+    return (chain_inv_common(rv, _xs[:_i], [], case_sensitive)
+            and (not case_sensitive or _i == 0 or all(rv.prefix_map[p] == _pre(_xs[0].prefix_map)[p] and rv.synonym_to_prefix[p] == _pre(_xs[0].synonym_to_prefix)[p]
+                                                      for r in _pre(_xs[0].records) for p in _pre(P(r))))
+            and (_i > 0 or len(rv.records) == 0))
+
+
+@invariant("api.chain", loop=1)
+def inv_chain1(converters, case_sensitive, rv, converter, _i, _xs, _outer_i, _outer_xs, _pre):
+    return (_xs == _pre(converter.records)
+            and chain_inv_common(rv, _outer_xs[:_outer_i], _xs[:_i], case_sensitive)
+            and (not case_sensitive or _outer_i == 0 or all(rv.prefix_map[p] == _pre(_outer_xs[0].prefix_map)[p]
+                                                            and rv.synonym_to_prefix[p] == _pre(_outer_xs[0].synonym_to_prefix)[p]
+                                                            for r in _pre(_outer_xs[0].records) for p in _pre(P(r))))
+            # while the first converter is being copied (case-sensitive), the result mirrors its processed records
+            and (not case_sensitive or _outer_i > 0 or (len(rv.records) == _i and all(
+                P(rv.records[k]) == _pre(P(_xs[k])) and U(rv.records[k]) == _pre(U(_xs[k]))
+                and rv.records[k].prefix == _pre(_xs[k].prefix) and rv.records[k].uri_prefix == _pre(_xs[k].uri_prefix) for k in range(_i)))))
 
 
 @lemma("C09.chain_single_is_identity", props=["C09"])
